@@ -2,7 +2,7 @@
    allowed reaction; the theorems about whole runs. *)
 From H2V Require Import Base.Bytes Base.MachineInt Base.Result Gen.GenConsts Impl.ServerConn.
 From H2V Require Import Proofs.SrvBase Proofs.SrvRfcDefs Proofs.SrvRfcSpec Proofs.SrvRfcModel Proofs.SrvRfcSim Proofs.SrvRfcEff
-  Proofs.SrvRfcSend Proofs.SrvRfcStep Proofs.SrvRfcKit Proofs.SrvRfcRl Proofs.SrvRfcSl Proofs.SrvRfcKnown Proofs.SrvRfcFrame Proofs.SrvRfcBatch Proofs.SrvRfcFlush.
+  Proofs.SrvRfcSend Proofs.SrvRfcStep Proofs.SrvRfcKit Proofs.SrvRfcRl Proofs.SrvRfcSl Proofs.SrvRfcKnown Proofs.SrvRfcFrame Proofs.SrvRfcBatch Proofs.SrvRfcFlush Proofs.SrvRfcTimer.
 From Coq Require Import ZArith Lia ZifyN ZifyNat ZifyBool.
 Local Open Scope N_scope.
 
@@ -260,13 +260,6 @@ Qed.
 
 (* ---------- inputs that are not frames ---------- *)
 
-Lemma Sim_live c s ph : Sim c s ph -> live_tuple hstate c s ph.
-Proof.
-  intros HS. split; [exact (S_aux _ _ _ _ HS)|]. split; [intros id O; apply rel_rel1, (S_str _ _ _ _ HS id O)|].
-  split; [exact (S_blk _ _ _ _ HS)|]. split; [exact (S_ga _ _ _ _ HS)|]. split; [exact (S_hi _ _ _ _ HS)|].
-  split; [exact (S_cont _ _ _ _ HS)|]. split; [exact (S_ph _ _ _ _ HS) | exact (S_new _ _ _ _ HS)].
-Qed.
-
 Lemma G_other_input c s ph i : Sim c s ph -> sc_sl_done c = false -> (forall fr, i <> RFrame fr) ->
   G c s ph i (feed c (IIn i)).
 Proof.
@@ -282,7 +275,7 @@ Proof.
       assert (MP : RS.may_process s RS.UnknownType = false) by (unfold RS.may_process; cbn [RS.verdicts]; rewrite B; reflexivity).
       cbn [resolve]. rewrite MP. split; [|split].
       * left. apply allowed_table. cbn [RS.verdicts]. rewrite B. reflexivity.
-      * rewrite Hsl. cbn [RS.spec_next]. unfold after_outs. cbn. apply Sim_live, HS.
+      * rewrite Hsl. cbn [RS.spec_next]. unfold after_outs. cbn. apply (Sim_live hstate), HS.
       * intros sid rq [].
     + apply (G_rl_goaway hstate dec_field enc_field enc_set_max cfg c s ph RUnknownType c_ProtocolError 1 Hsl Hwl).
       * eapply feed_rl_exit; eauto; sc_rw; try assumption. cbn [rl_step]. rewrite E0. reflexivity.
@@ -303,14 +296,20 @@ Qed.
 
 (* ---------- time and shutdown ---------- *)
 
-Lemma G_local c s ph l : Sim c s ph -> sc_sl_done c = false -> l <> LTimer -> Gloc hstate c s ph (feed c (ILocal l)).
+Lemma G_local c s ph l : Sim c s ph -> sc_sl_done c = false -> Gloc hstate c s ph (feed c (ILocal l)).
 Proof.
-  intros HS Hsl NT. pose proof (S_aux _ _ _ _ HS) as [AT AH]. pose proof (A_wl _ _ AT) as Hwl.
-  destruct l as [t| | |]; [| congruence | |]; unfold SrvRfcDefs.feed; cbn [local_event].
+  intros HS Hsl. pose proof (S_aux _ _ _ _ HS) as [AT AH]. pose proof (A_wl _ _ AT) as Hwl.
+  destruct l as [t| | |]; unfold SrvRfcDefs.feed; cbn [local_event].
   - (* the clock *)
     rewrite step_EvClock. destruct (sc_now c <? t)%Z.
     + apply (Gloc_batch hstate c s ph (upd_now c t) [] [] HS Hsl eq_refl); [apply batch_same; auto | intros i rq []].
     + apply (Gloc_batch hstate c s ph c [] [] HS Hsl eq_refl); [apply batch_same; auto | intros i rq []].
+  - (* the request timer: the overdue streams are reset (CANCEL) and closed *)
+    rewrite step_EvTimer, Hsl. unfold sl_timer. destruct (cf_maxRequestTime cfg <=? 0)%Z; cbn [fst cont].
+    + apply (Gloc_batch hstate c s ph c [] [] HS Hsl eq_refl); [apply batch_same; auto | intros i rq []].
+    + destruct (close_heads_live hstate (count_due cfg (sc_now c) (sc_strms c)) c s ph Hsl (S_wf _ _ _ _ HS) (Sim_live hstate c s ph HS))
+        as (d & O & Sl & Nd & L).
+      exists d. split; [exact O|]. rewrite Sl. split; [exact L | exact Nd].
   - (* idle: GOAWAY(NO_ERROR) *)
     rewrite step_EvIdle. set (c' := upd_closer (write_goaway c 0 c_NoError) true).
     exists [OGoAway (sc_lastID c) c_NoError]. split; [unfold c'; sc_cbn; rewrite sc_out_write_goaway, Hwl, Hsl; reflexivity|].
